@@ -347,7 +347,7 @@ def evaluate(ctx, name, cases, obs, spec_defs, spec_fn, variant="repaired"):
     {"tie": [case indices], "spec": [case indices]}."""
     usable = [i for i, o in enumerate(obs) if o.get("outcome") in ("ok", "error") and o.get("order")]
     bad = {"tie": [], "spec": []}
-    for mode, tie in (("async", "tie_async"), ("sync", "tie_sync")):
+    for mode, tie in (("async", "tie_async"), ("sync", "tie_sync"), ("cf", "(fun _ : case_t => true)")):
         idx = [i for i in usable if cases[i]["mode"] == mode]
         if not idx:
             continue
@@ -358,7 +358,7 @@ def evaluate(ctx, name, cases, obs, spec_defs, spec_fn, variant="repaired"):
                 o = dict(o, polls=o["polls"] + [dict(raised="job")])  # status 1: the job's exception escaped
             enc.append(enc_case(cases[i], o))
         res = coqio.run_cases(ctx.scratch, "%s_%s" % (name, mode), IMPORTS, "case_t", enc,
-                              {"tie": tie, "spec": spec_fn}, extra=defs(variant) + spec_defs, shard=25)
+                              {"tie": tie, "spec": spec_fn}, extra=defs(variant) + spec_defs, shard=40)
         for kind in ("tie", "spec"):
             bad[kind] += [idx[j] for j in res[kind]]
     return bad, usable
@@ -374,6 +374,91 @@ def model_values(ctx, case, obs, terms, spec_defs="", variant="repaired"):
                             extra=extra)
 
 
+def drive(ctx, name, spec_defs, n_async, n_sync, n_exh, rule, spec_note, fail_p=0.5, force_k=False, extra_cases=(),
+          model_terms=None, nproc=None):
+    """The common part of the four drivers: build cases (corpus first), run them in fresh interpreters,
+    let Coq evaluate tie and spec, fill an Outcome.  Returns (outcome, cases, obs, usable, bad)."""
+    from .runner import Outcome, Failure
+    rng = ctx.rng
+    corpus = [c["case"] if "case" in c else c for c in ctx.corpus()]
+    cases, exh_total = make_cases(ctx, n_async, n_sync, n_exh, corpus)
+    for c in cases[len(corpus):]:
+        if c["mode"] == "async" and not c.get("exh"):
+            nj = sum(njobs(n) for n in c["nodes"])
+            if force_k and c.get("k") is None:
+                c["k"] = rng.randint(1, max(1, nj - 1))
+            if fail_p != 0.5:
+                c["fail"] = gen_fail(rng, c["nodes"], fail_p)
+        if c.get("exh") and fail_p == 0.0:
+            c["fail"] = []
+        if c["mode"] == "sync" and fail_p == 0.0:
+            c["fail"] = []
+    cases += [dict(c) for c in extra_cases]
+    obs = run_batch(cases, nproc=nproc or (6 if ctx.tier == "thorough" else 4))
+    bad, usable = evaluate(ctx, name, cases, obs, spec_defs, "spec_ok")
+    out = Outcome(rule=rule)
+    seen = set()
+    dist = {"async": 0, "sync": 0, "cf": 0, "with_failures": 0, "k_limited": 0, "exhaustive_small": 0,
+            "harness_errors": 0, "jobs_total": 0, "status_ok": 0, "status_error": 0, "multi_completion_steps": 0,
+            "seen_running": 0}
+    for i in usable:
+        c, o = cases[i], obs[i]
+        out.evaluations += 1
+        dist[c["mode"]] += 1
+        dist["with_failures"] += bool(c.get("fail"))
+        dist["k_limited"] += c.get("k") is not None
+        dist["exhaustive_small"] += bool(c.get("exh"))
+        dist["jobs_total"] += sum(njobs(n) for n in c["nodes"])
+        dist["status_ok" if o["outcome"] == "ok" else "status_error"] += 1
+        dist["multi_completion_steps"] += sum(len(s["done"]) > 1 for s in o.get("steps") or [])
+        dist["seen_running"] += sum(len(s["vis"]) for s in o.get("steps") or [])
+        k = case_key(c, o)
+        if k not in seen:
+            seen.add(k)
+            out.distinct_nontrivial += nontrivial(c)
+    dist["harness_errors"] = len(cases) - len(usable)
+    out.traces_validated = len(usable)
+    out.distribution = dist
+    out.samples = [{"case": {k: v for k, v in cases[i].items() if k != "oracle"}, "observed": slim(obs[i])}
+                   for i in usable[:3]]
+    out.extra = {"exhaustive_space_small_shapes": exh_total}
+    for i, o in enumerate(obs):
+        if i not in usable:
+            out.failures.append(Failure(case=cases[i], observed=o, expected="a run", kind="tie",
+                                        note="the implementation could not be driven (harness error)"))
+    for kind in ("spec", "tie"):
+        for i in bad[kind][:6]:
+            terms = ["event_log (run_of c)" if cases[i]["mode"] != "sync" else "event_log (sync_of c)", "spec_ok c"]
+            terms += list(model_terms or [])
+            try:
+                vals = model_values(ctx, cases[i], obs[i], terms, spec_defs)
+            except Exception as e:  # noqa
+                vals = ["(could not evaluate: %s)" % str(e)[:200]] * len(terms)
+            out.failures.append(Failure(
+                case=cases[i], observed=slim(obs[i]),
+                expected=dict(zip(["model_event_log", "spec_holds_on_observation"] + list(model_terms or []), vals)),
+                kind=kind,
+                note=(spec_note if kind == "spec"
+                      else "Model.Sched run != implementation (polls, launches, log, errors or outputs)")))
+    return out, cases, obs, usable, bad
+
+
+def replay_case(ctx, payload, spec_defs):
+    case = payload["case"]
+    o = run_batch([case], nproc=1)[0]
+    print("implementation:", json.dumps(slim(o), default=repr)[:3000])
+    if case["mode"] == "cf":
+        print("cf run: peak concurrency", o.get("cf_peak"), "outputs", o.get("outputs"))
+    terms = ["event_log (run_of c)" if case["mode"] != "sync" else "event_log (sync_of c)", "spec_ok c"]
+    if case["mode"] != "cf":
+        terms.append("tie_async c" if case["mode"] == "async" else "tie_sync c")
+    vals = model_values(ctx, case, o, terms, spec_defs)
+    print("model event log:", vals[0])
+    print("spec on the observation:", vals[1])
+    if len(vals) > 2:
+        print("model = implementation:", vals[2])
+
+
 def slim(obs):
     return {k: obs.get(k) for k in ("outcome", "exc", "failed_named", "evlog", "launches", "steps", "outputs", "maxlive",
-                                    "order", "msg") if k in obs}
+                                    "order", "msg", "cf_peak", "cf_bodies") if k in obs}
